@@ -322,3 +322,204 @@ Lemma gen_queueing_model : forall H r data nonce src,
 Proof.
   intros. split; [apply gen_responder_add_ietf_model|split; [apply gen_responder_add_classic_model|apply gen_responder_reset_model]].
 Qed.
+
+(* ------------------------------------------------------------------ process_events: the drain loop *)
+Require Import RV.Spec.RefVerify RV.Spec.ServerGoals RV.Proofs.RequestFacts RV.Proofs.ServerFacts.
+
+Lemma ks_add_nonces : forall H r leaf nonce src r', (4 <= length nonce)%nat -> nonces_ok (r_requests r) ->
+  lift (responder_add H r leaf nonce src) = Ok r' -> nonces_ok (r_requests r').
+Proof.
+  intros H r leaf nonce src r' Hn Hr. unfold responder_add.
+  destruct (push_leaf H (r_merkle r) leaf) as [t| |]; cbn [obind lift]; try discriminate.
+  intros Heq. injection Heq as <-. cbn [r_requests]. apply Forall_app. split; [exact Hr|].
+  constructor; [exact Hn|constructor].
+Qed.
+
+Lemma ks_collect_nonces : forall H srv cfg ds ri rc i ri' rc' st lg,
+  nonces_ok (r_requests ri) -> nonces_ok (r_requests rc) ->
+  collect H srv cfg ri rc ds i = Ok (ri', rc', st, lg) ->
+  nonces_ok (r_requests ri') /\ nonces_ok (r_requests rc').
+Proof.
+  intros H srv cfg. induction ds as [|[src d] ds IH]; intros ri rc i ri' rc' st lg Hi Hc Hcol.
+  - cbn [collect] in Hcol. injection Hcol as <- <- _ _. split; assumption.
+  - cbn [collect] in Hcol. destruct (classify_wellformed srv d) as [Hok _].
+    destruct (classify srv d) as [[nonce ver]| |] eqn:Ecl; [| |discriminate Hcol].
+    + cbn [ok_opt] in Hok. symmetry in Hok. apply sf_wellformed_nonce in Hok.
+      assert (Hlen : (4 <= length nonce)%nat) by (destruct ver; cbn in Hok; lia).
+      destruct ver.
+      * destruct (lift (responder_add H rc nonce nonce src)) as [rc1| |] eqn:Ea; cbn [obind] in Hcol; try discriminate Hcol.
+        pose proof (ks_add_nonces _ _ _ _ _ _ Hlen Hc Ea) as Hc1.
+        destruct (collect H srv cfg ri rc1 ds (S i)) as [[[[ri2 rc2] st2] lg2]| |] eqn:E2; cbn [obind] in Hcol; try discriminate Hcol.
+        injection Hcol as <- <- _ _. exact (IH _ _ _ _ _ _ _ Hi Hc1 E2).
+      * destruct (lift (responder_add H ri d nonce src)) as [ri1| |] eqn:Ea; cbn [obind] in Hcol; try discriminate Hcol.
+        pose proof (ks_add_nonces _ _ _ _ _ _ Hlen Hi Ea) as Hi1.
+        destruct (collect H srv cfg ri1 rc ds (S i)) as [[[[ri2 rc2] st2] lg2]| |] eqn:E2; cbn [obind] in Hcol; try discriminate Hcol.
+        injection Hcol as <- <- _ _. exact (IH _ _ _ _ _ _ _ Hi1 Hc E2).
+    + destruct (collect H srv cfg ri rc ds (S i)) as [[[[ri2 rc2] st2] lg2]| |] eqn:E2; cbn [obind] in Hcol; try discriminate Hcol.
+      injection Hcol as <- <- _ _. exact (IH _ _ _ _ _ _ _ Hi Hc E2).
+Qed.
+
+Lemma ks_send_same_fields : forall H ed_sign cfg r now coins r' bo,
+  send_responses H ed_sign cfg r now coins = Ok (r', bo) ->
+  r' = mkresp (r_version r) (r_online_seed r) (r_cert_bytes r) (r_requests r) (r_merkle r').
+Proof.
+  intros H ed_sign cfg r now coins r' bo. unfold send_responses.
+  destruct (r_requests r) as [|x l] eqn:Er.
+  - intros Heq. injection Heq as <- _. destruct r; cbn in *. subst. reflexivity.
+  - rewrite <- Er.
+    destruct (lift (compute_root H (r_merkle r))) as [[t' root]| |]; cbn [obind]; try discriminate.
+    destruct (make_srep ed_sign (r_version r) (r_online_seed r) now root) as [srep| |]; cbn [obind]; try discriminate.
+    destruct (respond_each cfg (r_version r) srep (r_cert_bytes r) t' (r_requests r) 0 coins) as [bo'| |]; cbn [obind]; try discriminate.
+    intros Heq. injection Heq as <- _. reflexivity.
+Qed.
+
+Lemma ks_send_via : forall H ed_sign cfg now r sock st coins,
+  nonces_ok (r_requests r) ->
+  ok_opt (send_via H ed_sign cfg now r sock st coins)
+  = obo (ok_opt (send_responses H ed_sign cfg r now coins)) (fun '(r', bo) =>
+      Some (r', (fst sock, snd sock ++ bo_sent bo), st ++ bo_stats bo, bo_coins bo)).
+Proof.
+  intros H ed_sign cfg now r sock st coins Hn. unfold send_via.
+  pose proof (gen_send_responses_model H ed_sign cfg now r (mkg (fault_pct cfg) NoFault coins) (snd sock) st Hn eq_refl) as Hm.
+  cbn [g_coins] in Hm.
+  destruct (gen_send_responses H ed_sign now (send_fails cfg) (r_version r) (r_online_seed r) (r_cert_bytes r)
+              (r_requests r) (r_merkle r) (mkg (fault_pct cfg) NoFault coins) (snd sock) st)
+    as [[[[t' g'] s'] st']| |]; cbn [omap ok_opt obind] in *;
+    destruct (send_responses H ed_sign cfg r now coins) as [[r' bo]| |] eqn:Es; cbn [ok_opt obo] in *;
+    try discriminate Hm; try reflexivity.
+  injection Hm as -> -> -> ->. rewrite (ks_send_same_fields _ _ _ _ _ _ _ _ Es) at 2. reflexivity.
+Qed.
+
+Lemma ks_collect_via : forall H srv cfg n q sent buf ri rc st i,
+  match collect H srv cfg ri rc (firstn n q) i with
+  | Ok (ri', rc', sts, _) => exists buf1,
+      collect_via H (N.of_nat n) (q, sent) buf srv ri rc st
+      = Ok ((length q <? n)%nat, ((skipn n q, sent), buf1, ri', rc', st ++ sts))
+  | Err e => collect_via H (N.of_nat n) (q, sent) buf srv ri rc st = Err e
+  | Panic s => collect_via H (N.of_nat n) (q, sent) buf srv ri rc st = Panic s
+  end.
+Proof.
+  intros H srv cfg n q sent buf ri rc st i.
+  pose proof (gen_collect_requests_model H srv cfg n q buf ri rc st i) as Hm. unfold collect_via. cbn [fst snd].
+  destruct (gen_collect_requests H (N.of_nat n) q buf srv ri rc st) as [[b [[[[q' b'] ri'] rc'] st']]| |];
+    cbn [omap obind] in *;
+    destruct (collect H srv cfg ri rc (firstn n q) i) as [[[[ri2 rc2] sts] lg]| |]; cbn [obind] in *;
+    try discriminate Hm.
+  - injection Hm as -> -> -> -> ->. exists b'. reflexivity.
+  - injection Hm as ->. reflexivity.
+  - injection Hm as ->. reflexivity.
+Qed.
+
+Lemma ks_ok_opt_some : forall A (x : res A) a, ok_opt x = Some a -> x = Ok a.
+Proof. intros A [b| |] a Hx; cbn in Hx; try discriminate. injection Hx as ->. reflexivity. Qed.
+
+Lemma ks_none_bind : forall A B C (x : res A) (K : A -> res B) (f : B -> C),
+  ok_opt x = None -> ok_opt (omap f (obind x K)) = None.
+Proof. intros A B C [a| |] K f Hx; cbn in *; try discriminate; reflexivity. Qed.
+
+Lemma ks_send_via_cases : forall H ed_sign cfg now r sock st coins,
+  nonces_ok (r_requests r) ->
+  match send_responses H ed_sign cfg r now coins with
+  | Ok (r', bo) =>
+      send_via H ed_sign cfg now r sock st coins
+      = Ok (r', (fst sock, snd sock ++ bo_sent bo), st ++ bo_stats bo, bo_coins bo)
+  | _ => ok_opt (send_via H ed_sign cfg now r sock st coins) = None
+  end.
+Proof.
+  intros H ed_sign cfg now r sock st coins Hn.
+  pose proof (ks_send_via H ed_sign cfg now r sock st coins Hn) as Hs.
+  destruct (send_responses H ed_sign cfg r now coins) as [[r' bo]| |]; cbn [ok_opt obo] in Hs; try exact Hs.
+  apply ks_ok_opt_some. exact Hs.
+Qed.
+
+Ltac kill_none Hs :=
+  match type of Hs with ok_opt ?X = None => destruct X as [?a| |]; cbn in Hs; try discriminate Hs; reflexivity end.
+
+Section Drain.
+  Variable H : bytes -> bytes.
+  Variable ed_sign : bytes -> bytes -> bytes.
+  Variable cfg : config.
+  Variable srv : bytes.
+  Variable clk : nat -> clock.
+
+  Definition dstate := (responder * responder * (list dgram * list emission) * bytes * list sev * list coin * nat)%type.
+
+  Definition proj_d (x : dstate) : responder * responder * list emission * list sev :=
+    let '(ri, rc, sock, _, st, _, _) := x in (ri, rc, snd sock, st).
+
+  Lemma ks_reset_nonces : forall r, nonces_ok (r_requests (responder_reset r)).
+  Proof. intros. constructor. Qed.
+
+  Lemma ks_drain_loop : forall (B : dstate -> res (dstate * bool)),
+    (forall s, B s =
+      (let '(ri, rc, sock, buf, st, coins, k) := s in
+       obind (collect_via H (N.of_nat (batch_size cfg)) sock buf srv (responder_reset ri) (responder_reset rc) st)
+         (fun '(empty, (sock1, buf1, ri1, rc1, st1)) =>
+       obind (send_via H ed_sign cfg (clk k) ri1 sock1 st1 coins) (fun '(ri2, sock2, st2, coins2) =>
+       obind (obind (send_via H ed_sign cfg (clk k) rc1 sock2 st2 coins2)
+                (fun '(r_sv, s_sv, st_sv, c_sv) => Ok (r_sv, s_sv, st_sv, c_sv, S k)))
+             (fun '(rc2, sock3, st3, coins3, k') =>
+       if empty then Ok ((ri2, rc2, sock3, buf1, st3, coins3, k'), true)
+       else Ok ((ri2, rc2, sock3, buf1, st3, coins3, k'), false)))))) ->
+    forall fuel ri rc q sent buf st coins k,
+    ok_opt (omap proj_d (loop_fuel fuel B (ri, rc, (q, sent), buf, st, coins, k)))
+    = obo (ok_opt (drain H ed_sign fuel (mksrv cfg srv ri rc) q clk k coins)) (fun '(s2, o) =>
+        Some (s_ietf s2, s_classic s2, sent ++ so_sent o, st ++ so_stats o)).
+  Proof.
+    intros B HB. induction fuel as [|f IH]; intros ri rc q sent buf st coins k; [reflexivity|].
+    cbn [loop_fuel drain]. rewrite HB. unfold one_batch. cbn [s_ietf s_classic s_cfg s_srv_value].
+    pose proof (ks_collect_via H srv cfg (batch_size cfg) q sent buf (responder_reset ri) (responder_reset rc) st 0) as Hc.
+    destruct (collect H srv cfg (responder_reset ri) (responder_reset rc) (firstn (batch_size cfg) q) 0)
+      as [[[[ri1 rc1] sts] lg]| |] eqn:Ecol; cbn [obind].
+    2:{ rewrite Hc. reflexivity. }
+    2:{ rewrite Hc. reflexivity. }
+    destruct Hc as [buf1 Hc]. rewrite Hc. cbn [obind].
+    destruct (ks_collect_nonces _ _ _ _ _ _ _ _ _ _ _ (ks_reset_nonces ri) (ks_reset_nonces rc) Ecol) as [Hn1 Hn2].
+    pose proof (ks_send_via_cases H ed_sign cfg (clk k) ri1 (skipn (batch_size cfg) q, sent) (st ++ sts) coins Hn1) as Hs1.
+    destruct (send_responses H ed_sign cfg ri1 (clk k) coins) as [[ri2 bo1]| |]; cbn [ok_opt obo obind].
+    2:{ kill_none Hs1. }
+    2:{ kill_none Hs1. }
+    rewrite Hs1. cbn [obind fst snd].
+    pose proof (ks_send_via_cases H ed_sign cfg (clk k) rc1 (skipn (batch_size cfg) q, sent ++ bo_sent bo1)
+                  ((st ++ sts) ++ bo_stats bo1) (bo_coins bo1) Hn2) as Hs2.
+    destruct (send_responses H ed_sign cfg rc1 (clk k) (bo_coins bo1)) as [[rc2 bo2]| |]; cbn [ok_opt obo obind].
+    2:{ kill_none Hs2. }
+    2:{ kill_none Hs2. }
+    rewrite Hs2. cbn [obind fst snd so_sent so_stats].
+    destruct (length q <? batch_size cfg)%nat; cbn [obind ok_opt obo omap proj_d snd].
+    - rewrite <- !app_assoc. reflexivity.
+    - rewrite IH.
+      destruct (drain H ed_sign f _ _ clk (S k) (bo_coins bo2)) as [[s2 o2]| |]; cbn [obind ok_opt obo]; try reflexivity.
+      cbn [so_sent so_stats]. rewrite <- !app_assoc. reflexivity.
+  Qed.
+End Drain.
+
+(* Server::process_events as translated from src/server.rs, for a wake-up with the UDP socket
+   readable: reset both responders, collect at most batch_size requests, answer the IETF ones then
+   the classic ones, repeat until a read found the socket empty — the model's drain, with the same
+   datagrams sent in the same order and the same statistics events, or both fail. *)
+Theorem gen_process_events_model : forall H ed_sign cfg clk on_health on_status srv ri rc q sent buf st coins k events,
+  ok_opt (omap (fun '(sock, _, ri', rc', st', _, _) => (ri', rc', snd sock, st'))
+     (gen_process_events H ed_sign cfg clk [EvMessage] on_health on_status (N.of_nat (batch_size cfg))
+        (q, sent) buf srv ri rc st coins k events))
+  = obo (ok_opt (drain H ed_sign (S (length q)) (mksrv cfg srv ri rc) q clk k coins)) (fun '(s2, o) =>
+      Some (s_ietf s2, s_classic s2, sent ++ so_sent o, st ++ so_stats o)).
+Proof.
+  intros. unfold gen_process_events. cbv zeta. cbn [fold_res fst].
+  match goal with |- context [loop_fuel _ ?B _] =>
+    pose proof (ks_drain_loop H ed_sign cfg srv clk B) as HL
+  end.
+  specialize (HL ltac:(intros [[[[[[ri0 rc0] sock0] buf0] st0] coins0] k0]; reflexivity)).
+  specialize (HL (S (length q)) ri rc q sent buf st coins k). unfold dstate in HL.
+  match goal with |- context [loop_fuel ?f ?B ?s] => destruct (loop_fuel f B s) as [[[[[[[ri' rc'] sock'] buf'] st'] coins'] k']| |] end;
+    cbn [obind omap ok_opt proj_d] in *; exact HL.
+Qed.
+
+(* a wake-up for the health-check listener or the statistics timer does not touch the responders
+   or the UDP socket *)
+Theorem gen_process_events_other : forall H ed_sign cfg clk on_health on_status bs srv ri rc sock buf st coins k events,
+  gen_process_events H ed_sign cfg clk [EvHealthCheck] on_health on_status bs sock buf srv ri rc st coins k events
+  = Ok (sock, buf, ri, rc, on_health st, coins, k)
+  /\ gen_process_events H ed_sign cfg clk [EvStatusUpdate] on_health on_status bs sock buf srv ri rc st coins k events
+  = Ok (sock, buf, ri, rc, on_status st, coins, k).
+Proof. intros. split; reflexivity. Qed.
